@@ -32,7 +32,8 @@ def gaussian_obligations(rep):
     except Exception as ex:
         rep.undecided.append(f"{fq}: {ex}")
         return
-    rep.add_function(fq, CONST, ast.get_source_segment(src, fn) or "", "P (symbolic execution + sympy integration)")
+    _gsrc = ast.get_source_segment(src, fn) or ""
+    rep.add_function(fq, CONST, _gsrc, "P (symbolic execution + sympy integration)")
     t, ta, mu, om, d = sp.symbols("t t_a mu omega d", real=True)
     sg = sp.Symbol("sigma", positive=True)
     env = {"t": t, "t_a": ta, "omega": om, "mu": mu, "sigma": sg}
@@ -79,8 +80,7 @@ def gaussian_obligations(rep):
         ok2 = sp.simplify(ov - sp.exp(-d ** 2 / (4 * sg ** 2))) == 0
         real = ret.is_real is not False
     except Outside as o:
-        rep.add_ob(Obligation(f"{fq}::subset", fq, "subset", "pyvc", "unknown", detail=str(o)))
-        rep.undecided.append(f"{fq}: {o}")
+        rep.not_covered(fq, _gsrc, f"symbolic evaluation of the profile: {o} (the numeric grid against the closed form still runs)")
         return
     for name, ok, detail in (("ensures:profile-is-L2-normalised", ok1, f"integral of f^2 = {norm}"),
                              ("ensures:overlap-of-equal-gaussians-delayed-by-d-is-exp(-d^2/(4 sigma^2))", ok2, f"integral = {ov}")):
